@@ -2,7 +2,12 @@ package main
 
 // monitor.go: the property recomputed from REAL observables, independently of the Coq model.
 //   conservation   per token group: sum over non-module accounts of (every bank denomination + ERC-20) + in-flight
-//                  records == initial holdings + deposits the harness fed and saw executed - withdrawals it fed as executed
+//                  records + observed deposits not executed yet == initial holdings + deposits the harness fed and saw
+//                  OBSERVED - withdrawals it fed as executed
+//   once           an executed deposit claim cannot be executed again (probed on a discarded branch after every execution)
+//   parked         an observed deposit of a registered bridge token stays executable however many events follow it: a
+//                  deliberately parked claim (valid module-owned token, positive amount, plain target) must execute when
+//                  it is executed later, at the latest at the end of the history
 //   local          an operation changes no balance of a non-module account it does not name
 //   withdrawable   reading (towards not alarming): a send / bridge call towards chain X by a holder whose own balance
 //                  suffices may be refused for lack of module-side funds only if the amount exceeds what is currently
@@ -33,6 +38,8 @@ type Monitor struct {
 	h        *History
 	initHold []*big.Int
 	dep, exe []*big.Int
+	pend     []*big.Int // observed deposits whose execution has not succeeded (yet)
+	obsH     uint64     // external height of the observation that just aborted
 	depVia   map[[2]int]*big.Int
 	exeVia   map[[2]int]*big.Int
 	batch    map[string][]*big.Int // noted batch contents per token
@@ -79,6 +86,7 @@ func newMonitor(w *World, rep *lib.Report, h *History) *Monitor {
 		m.initHold = append(m.initHold, m.holdings(w.C.Ctx, t))
 		m.dep = append(m.dep, new(big.Int))
 		m.exe = append(m.exe, new(big.Int))
+		m.pend = append(m.pend, new(big.Int))
 	}
 	return m
 }
@@ -216,19 +224,51 @@ type need struct {
 func (m *Monitor) after(o Op, p *preState, res perfResult) {
 	w := m.w
 	ctx := w.C.Ctx
-	// ---- tallies of what the harness fed and saw executed ----
-	if res.executed {
+	// ---- tallies: a deposit counts from the moment its event is OBSERVED (property text: "deposits from observed
+	// events"); until its execution succeeds it is owed to the receiver (pend) ----
+	deposits := func() [][2]int64 { // (token, amount) of registered bridge tokens of chain o.C carried by the claim
+		var out [][2]int64
 		switch o.K {
 		case "SendToFx":
-			m.dep[o.T].Add(m.dep[o.T], big.NewInt(o.X))
-			via(m.depVia, o.T, o.C).Add(via(m.depVia, o.T, o.C), big.NewInt(o.X))
-			if o.Tgt == 2 { // forwarded over IBC at once
-				m.exe[o.T].Add(m.exe[o.T], big.NewInt(o.X))
-			}
+			out = [][2]int64{{int64(o.T), o.X}}
 		case "BridgeCallIn":
-			for _, q := range o.Toks {
-				m.dep[q[0]].Add(m.dep[q[0]], big.NewInt(q[1]))
+			out = o.Toks
+		}
+		var reg [][2]int64
+		for _, q := range out {
+			if w.Toks[q[0]].Alias(chainName(o.C)) != nil {
+				reg = append(reg, q)
+			}
+		}
+		return reg
+	}
+	if res.observed {
+		for _, q := range deposits() {
+			m.dep[q[0]].Add(m.dep[q[0]], big.NewInt(q[1]))
+			m.pend[q[0]].Add(m.pend[q[0]], big.NewInt(q[1]))
+		}
+	}
+	if res.parked && !res.ok {
+		m.fail("C04:parked-deposit-unexecutable", fmt.Sprintf("%s: a deposit that was observed (event nonce %d of %s) and left unexecuted can no longer be executed: %v — the receiver is never credited although the tokens are locked on the external chain", o.Coq(), o.ID, chainName(o.C), res.err))
+	}
+	if res.executed && (o.K == "SendToFx" || o.K == "BridgeCallIn") {
+		n := uint64(o.ID)
+		if o.K == "BridgeCallIn" {
+			n = uint64(o.H)
+		}
+		if w.executableAgain(o.C, n) {
+			m.fail("C04:deposit-executable-twice", fmt.Sprintf("%s: the deposit's claim (event nonce %d of %s) was executed and can be executed once more: its value would be credited twice", o.Coq(), n, chainName(o.C)))
+		}
+	}
+	if res.executed {
+		switch o.K {
+		case "SendToFx", "BridgeCallIn":
+			for _, q := range deposits() {
+				m.pend[q[0]].Sub(m.pend[q[0]], big.NewInt(q[1]))
 				via(m.depVia, int(q[0]), o.C).Add(via(m.depVia, int(q[0]), o.C), big.NewInt(q[1]))
+			}
+			if o.K == "SendToFx" && o.Tgt == 2 { // forwarded over IBC at once
+				m.exe[o.T].Add(m.exe[o.T], big.NewInt(o.X))
 			}
 		case "IbcMint", "IbcRecv":
 			m.dep[o.T].Add(m.dep[o.T], big.NewInt(o.X))
@@ -251,12 +291,13 @@ func (m *Monitor) after(o Op, p *preState, res perfResult) {
 	// ---- conservation ----
 	for t, tk := range w.Toks {
 		lhs := new(big.Int).Add(m.holdings(ctx, t), m.inflightAll(ctx, t))
+		lhs.Add(lhs, m.pend[t])
 		rhs := new(big.Int).Add(m.initHold[t], m.dep[t])
 		rhs.Sub(rhs, m.exe[t])
 		if lhs.Cmp(rhs) != 0 && !m.seen[fmt.Sprint("cons", t)] {
 			m.seen[fmt.Sprint("cons", t)] = true // report the step that broke it, not every later one
 			m.fail("C04:conservation:"+tk.Kind.String()+":"+o.K,
-				fmt.Sprintf("conservation broken for %s (%s) after %s: holdings+in-flight=%s, initial+deposited-executed=%s", tk.Symbol, tk.Kind, o.Coq(), lhs, rhs))
+				fmt.Sprintf("conservation broken for %s (%s) after %s: holdings+in-flight+observed-unexecuted=%s, initial+deposited(observed)-executed=%s", tk.Symbol, tk.Kind, o.Coq(), lhs, rhs))
 		}
 	}
 	// ---- local ----
@@ -429,11 +470,17 @@ func (m *Monitor) refundRefused(o Op, why string) {
 		}
 		kinds = m.kindsOf(c, oc.Tokens)
 	} else {
-		// the observation aborted: the first call (ascending nonce) is the one whose time-out refund ran
+		// the observation aborted: one of the calls it timed out (timeout not above the observed height, in nonce order) is the one whose
+		// refund cannot run; the token kinds of all of them together
+		var toks []crosschaintypes.ERC20Token
 		m.w.xs(c).Keeper.IterateOutgoingBridgeCalls(ctx, func(oc *crosschaintypes.OutgoingBridgeCall) bool {
-			kinds = m.kindsOf(c, oc.Tokens)
-			return true
+			if oc.Timeout > m.obsH {
+				return true
+			}
+			toks = append(toks, oc.Tokens...)
+			return false
 		})
+		kinds = m.kindsOf(c, toks)
 	}
 	m.fail("C04:refund-refused:"+kinds+":"+why,
 		fmt.Sprintf("%s: the refund of an outgoing bridge call carrying %s tokens cannot be executed (%s path): the value stays in flight forever%s",
